@@ -308,6 +308,28 @@ def _run_rows(case, ctx):
             ctx.outcome(rr)
         if sa and sb and (sa & sb) and (sa - sb):
             ctx.nontriv()
+        # the same rows held in different integer dtypes are the same rows (subscripts arrive as int32 or int64)
+        if A and B and len(A) + len(B) <= 4:
+            a32, b64 = a.astype(np.int32), b.astype(np.int64)
+            ctx.tick()
+            ok, got = _call(ctx, "tt_ismember_rows", lambda: tt_ismember_rows(a32.copy(), b64.copy()), case=sub, variant="int32_vs_int64")
+            if ok:
+                matched, res = got
+                good = len(matched) == len(A) and all(
+                    (bool(matched[i]) and 0 <= res[i] < len(B) and B[res[i]] == r) if r in sb else ((not matched[i]) and res[i] == -1)
+                    for i, r in enumerate(A))
+                if not good:
+                    ctx.fail("tt_ismember_rows", "wrong_value", f"A(int32)={A} B(int64)={B} got={matched.tolist()},{res.tolist()}",
+                             case=sub, variant="int32_vs_int64")
+            for nm, fn, want in (("tt_intersect_rows", tt_intersect_rows, sa & sb), ("tt_setdiff_rows", tt_setdiff_rows, sa - sb)):
+                ctx.tick()
+                ok, got = _call(ctx, nm, lambda: fn(a32.copy(), b64.copy()), case=sub, variant="int32_vs_int64")
+                if ok:
+                    idx = np.asarray(got).astype(int).tolist()
+                    good = all(0 <= i < len(A) for i in idx) and {A[i] for i in idx if 0 <= i < len(A)} == want and len(idx) == len(want)
+                    if not good:
+                        ctx.fail(nm, "wrong_value", f"A(int32)={A} B(int64)={B} got={idx} want rows {sorted(want)}", case=sub,
+                                 variant="int32_vs_int64")
 
 
 def _run_khatrirao(case, ctx):
